@@ -26,6 +26,14 @@ var badListens = []string{
 	"localhost:+80", "[[::1]]:80", "a]b", "unix//run/c.sock|0222222", "unix//run/c.sock|02222222",
 }
 
+// placeholders in the listen string (expanded by the real global replacer)
+var placeholderListens = []string{
+	"{env.C13_HOST}:{env.C13_PORT}", "{env.C13_IP}:2019", "{env.C13_UNSET}:2019", "{env.C13_EMPTY}:2019", "{env.C13_WILD}:2019",
+	"{unknown.key}:2019", "{env.C13_HOST:2019", "\\{env.C13_HOST}:2019", "{env.C13_BRACE}:2019", "localhost:{env.C13_PORT}",
+	"{env.C13_HOST}", "{}:2019", "}{:1", "{env.C13_HOST}{env.C13_EMPTY}:2019", "{env.C13_IP}:{env.C13_UNSET}", "tcp/{env.C13_IP}:2019",
+	"unix/{env.C13_HOST}.sock", "{env.C13_EMPTY}", "{http.request.host}:2019", "{env.C13_HOST}}:2019",
+}
+
 // what the load op may bind
 var loadListens = []string{"localhost:0", "127.0.0.1:0", "127.0.0.2:0", ":0", "0.0.0.0:0", "tcp/localhost:0", "127.0.0.1", "localhost", "0.0.0.0", "unix/c13-load-%d.sock", "", ""}
 
@@ -171,6 +179,8 @@ func (p *prop) genCase(rng *core.Rand, load bool) string {
 		}
 	case rng.Chance(1, 40):
 		c.listen = rng.Pick(badListens)
+	case rng.Chance(1, 30):
+		c.listen = rng.Pick(placeholderListens)
 	case c.remote:
 		c.listen = rng.Pick(remoteListens)
 	default:
@@ -178,7 +188,7 @@ func (p *prop) genCase(rng *core.Rand, load bool) string {
 	}
 	if !load && rng.Chance(1, 25) {
 		// random edits: the model parses the string itself, so anything printable goes
-		const alpha = "[]::://||--0129 atcpunixfdUX.%@"
+		const alpha = "[]::://||--0129 atcpunixfdUX.%@{}"
 		b := []byte(c.listen)
 		for n := 1 + rng.Intn(2); n > 0; n-- {
 			i := rng.Intn(len(b) + 1)
